@@ -16,6 +16,7 @@ type Style struct {
 	Root     bool // the document is addressed under `root` (Wrapped): FROM paths get the prefix
 	ctes     map[string]bool
 	inSub    bool // rendering a row-scoped subquery: paths without <- are relative to the row
+	PadCounts bool // LIMIT / OFFSET counts written with a leading zero (a decimal number all the same)
 }
 
 // rooted prefixes a FROM path with `root` (after leading <- steps) unless it names a CTE.
@@ -177,6 +178,9 @@ func litText(v Node) string {
 		}
 		return "false"
 	case "num":
+		if raw, ok := v["raw"].(string); ok {
+			return raw
+		}
 		n, d := num(v["n"]), num(v["d"])
 		var s string
 		if d == 1 {
@@ -331,7 +335,7 @@ func (st Style) fromText(f Node, full Style) string {
 	panic(fmt.Sprintf("cannot render from %#v", f))
 }
 
-func limitText(q Node) string {
+func limitText(q Node, pad bool) string {
 	lim, off := int(num(q["limit"])), int(num(q["offset"]))
 	if lim < 0 {
 		return ""
@@ -350,13 +354,17 @@ func limitText(q Node) string {
 		}
 		return fmt.Sprintf(" LIMIT %s OFFSET %d", text, off)
 	}
+	d := "%d"
+	if pad {
+		d = "0%d"
+	}
 	if off < 0 {
-		return fmt.Sprintf(" LIMIT %d", lim)
+		return fmt.Sprintf(" LIMIT "+d, lim)
 	}
 	if s, _ := q["limstyle"].(string); s == "comma" {
-		return fmt.Sprintf(" LIMIT %d, %d", off, lim)
+		return fmt.Sprintf(" LIMIT "+d+", "+d, off, lim)
 	}
-	return fmt.Sprintf(" LIMIT %d OFFSET %d", lim, off)
+	return fmt.Sprintf(" LIMIT "+d+" OFFSET "+d, lim, off)
 }
 
 // Query renders a query AST as SQL text.
@@ -393,7 +401,7 @@ func (st Style) Query(q Node) string {
 			}
 			order = " ORDER BY " + strings.Join(ks, ", ")
 		}
-		return side(q["l"].(Node)) + kw + side(q["r"].(Node)) + order + limitText(q)
+		return side(q["l"].(Node)) + kw + side(q["r"].(Node)) + order + limitText(q, st.PadCounts)
 	}
 	var b strings.Builder
 	if with := seq(q["with"]); len(with) > 0 {
@@ -459,6 +467,6 @@ func (st Style) Query(q Node) string {
 		}
 		b.WriteString(" ORDER BY " + strings.Join(ks, ", "))
 	}
-	b.WriteString(limitText(q))
+	b.WriteString(limitText(q, st.PadCounts))
 	return b.String()
 }
